@@ -2,6 +2,7 @@ package manifest
 
 import (
 	"bufio"
+	"bytes"
 	"encoding/binary"
 	"fmt"
 	"io"
@@ -163,11 +164,15 @@ func readEdit(r *bufio.Reader) (Edit, error) {
 	if err := binary.Read(r, binary.LittleEndian, &length); err != nil {
 		return Edit{}, err
 	}
-	data := make([]byte, length)
-	if _, err := io.ReadFull(r, data); err != nil {
+	// do not trust the length prefix with an allocation: grow with the bytes actually present
+	var buf bytes.Buffer
+	if _, err := io.CopyN(&buf, r, int64(length)); err != nil {
+		if err == io.EOF && buf.Len() > 0 {
+			err = io.ErrUnexpectedEOF
+		}
 		return Edit{}, err
 	}
-	return decodeEdit(data)
+	return decodeEdit(buf.Bytes())
 }
 
 func decodeEdit(data []byte) (Edit, error) {
@@ -186,6 +191,17 @@ func decodeEdit(data []byte) (Edit, error) {
 	}
 	edit := Edit{Type: EditType(data[len(editMagic)])}
 	pos := len(editMagic) + 1
+	// binary.Uvarint reports a 64-bit overflow with a negative byte count: never move pos
+	// backwards, poison the edit instead.
+	malformed := false
+	uvarint := func(b []byte) (uint64, int) {
+		v, n := binary.Uvarint(b)
+		if n < 0 {
+			malformed = true
+			return 0, len(b)
+		}
+		return v, n
+	}
 	switch edit.Type {
 	case EditAddFile, EditDeleteFile:
 		// EditAddFile / EditDeleteFile Data Format:
@@ -195,24 +211,24 @@ func decodeEdit(data []byte) (Edit, error) {
 		// | CreatedAt (v)  | ValueSize (v)  | Ingest (1B)    |
 		// +----------------+----------------+
 		// (v) denotes Uvarint, (lv) denotes Length-prefixed Bytes (Uvarint length + bytes)
-		level, n := binary.Uvarint(data[pos:])
+		level, n := uvarint(data[pos:])
 		pos += n
-		fileID, n := binary.Uvarint(data[pos:])
+		fileID, n := uvarint(data[pos:])
 		pos += n
-		size, n := binary.Uvarint(data[pos:])
+		size, n := uvarint(data[pos:])
 		pos += n
 		smallest, n := readBytes(data[pos:])
 		pos += n
 		largest, n := readBytes(data[pos:])
 		pos += n
-		created, n := binary.Uvarint(data[pos:])
+		created, n := uvarint(data[pos:])
 		pos += n
 		var valueSize uint64
-		if pos <= len(data) {
+		if pos < len(data) {
 			if pos == len(data) {
 				valueSize = 0
 			} else {
-				vs, consumed := binary.Uvarint(data[pos:])
+				vs, consumed := uvarint(data[pos:])
 				pos += consumed
 				valueSize = vs
 			}
@@ -241,9 +257,9 @@ func decodeEdit(data []byte) (Edit, error) {
 		// | LogSegment (v) | LogOffset (v)  |
 		// +----------------+----------------+
 		// (v) denotes Uvarint
-		seg, n := binary.Uvarint(data[pos:])
+		seg, n := uvarint(data[pos:])
 		pos += n
-		off, n := binary.Uvarint(data[pos:])
+		off, n := uvarint(data[pos:])
 		pos += n
 		if pos > len(data) {
 			return Edit{}, fmt.Errorf("manifest log pointer truncated")
@@ -257,11 +273,11 @@ func decodeEdit(data []byte) (Edit, error) {
 		// +----------------+----------------+----------------+
 		// (v) denotes Uvarint
 		if pos < len(data) {
-			bucket64, n := binary.Uvarint(data[pos:])
+			bucket64, n := uvarint(data[pos:])
 			pos += n
-			fid64, n := binary.Uvarint(data[pos:])
+			fid64, n := uvarint(data[pos:])
 			pos += n
-			offset, n := binary.Uvarint(data[pos:])
+			offset, n := uvarint(data[pos:])
 			pos += n
 			if pos > len(data) {
 				return Edit{}, fmt.Errorf("manifest value log head truncated")
@@ -280,9 +296,9 @@ func decodeEdit(data []byte) (Edit, error) {
 		// +----------------+----------------+
 		// (v) denotes Uvarint
 		if pos < len(data) {
-			bucket64, n := binary.Uvarint(data[pos:])
+			bucket64, n := uvarint(data[pos:])
 			pos += n
-			fid64, n := binary.Uvarint(data[pos:])
+			fid64, n := uvarint(data[pos:])
 			pos += n
 			if pos > len(data) {
 				return Edit{}, fmt.Errorf("manifest value log delete truncated")
@@ -299,11 +315,11 @@ func decodeEdit(data []byte) (Edit, error) {
 		// +----------------+----------------+----------------+----------+
 		// (v) denotes Uvarint
 		if pos < len(data) {
-			bucket64, n := binary.Uvarint(data[pos:])
+			bucket64, n := uvarint(data[pos:])
 			pos += n
-			fid64, n := binary.Uvarint(data[pos:])
+			fid64, n := uvarint(data[pos:])
 			pos += n
-			offset, n := binary.Uvarint(data[pos:])
+			offset, n := uvarint(data[pos:])
 			pos += n
 			if pos > len(data) {
 				return Edit{}, fmt.Errorf("manifest value log update truncated")
@@ -329,22 +345,22 @@ func decodeEdit(data []byte) (Edit, error) {
 		// | TruncatedIndex (v)| TruncatedTerm (v)| SegmentIndex (v)| TruncatedOffset (v)|
 		// +-----------------+-----------------+-----------------+-----------------+
 		// (v) denotes Uvarint
-		if pos <= len(data) {
-			groupID, n := binary.Uvarint(data[pos:])
+		if pos < len(data) {
+			groupID, n := uvarint(data[pos:])
 			pos += n
-			seg, n := binary.Uvarint(data[pos:])
+			seg, n := uvarint(data[pos:])
 			pos += n
-			off, n := binary.Uvarint(data[pos:])
+			off, n := uvarint(data[pos:])
 			pos += n
-			appliedIdx, n := binary.Uvarint(data[pos:])
+			appliedIdx, n := uvarint(data[pos:])
 			pos += n
-			appliedTerm, n := binary.Uvarint(data[pos:])
+			appliedTerm, n := uvarint(data[pos:])
 			pos += n
-			committed, n := binary.Uvarint(data[pos:])
+			committed, n := uvarint(data[pos:])
 			pos += n
-			snapIdx, n := binary.Uvarint(data[pos:])
+			snapIdx, n := uvarint(data[pos:])
 			pos += n
-			snapTerm, n := binary.Uvarint(data[pos:])
+			snapTerm, n := uvarint(data[pos:])
 			pos += n
 			if pos > len(data) {
 				return Edit{}, fmt.Errorf("manifest raft pointer truncated")
@@ -354,28 +370,28 @@ func decodeEdit(data []byte) (Edit, error) {
 			var segmentIndex uint64
 			var truncatedOffset uint64
 			if pos < len(data) {
-				truncatedIdx, n = binary.Uvarint(data[pos:])
+				truncatedIdx, n = uvarint(data[pos:])
 				pos += n
 				if pos > len(data) {
 					return Edit{}, fmt.Errorf("manifest raft pointer truncated index overflow")
 				}
 			}
 			if pos < len(data) {
-				truncatedTerm, n = binary.Uvarint(data[pos:])
+				truncatedTerm, n = uvarint(data[pos:])
 				pos += n
 				if pos > len(data) {
 					return Edit{}, fmt.Errorf("manifest raft pointer truncated term overflow")
 				}
 			}
 			if pos < len(data) {
-				segmentIndex, n = binary.Uvarint(data[pos:])
+				segmentIndex, n = uvarint(data[pos:])
 				pos += n
 				if pos > len(data) {
 					return Edit{}, fmt.Errorf("manifest raft pointer segment index overflow")
 				}
 			}
 			if pos < len(data) {
-				truncatedOffset, n = binary.Uvarint(data[pos:])
+				truncatedOffset, n = uvarint(data[pos:])
 				pos += n
 				if pos > len(data) {
 					return Edit{}, fmt.Errorf("manifest raft pointer truncated offset overflow")
@@ -404,8 +420,8 @@ func decodeEdit(data []byte) (Edit, error) {
 		// | Epoch.ConfVersion (v) | State (1B) | PeersCount (v) | Peer1.StoreID (v) | Peer1.PeerID (v) | ... |
 		// +-----------------------+------------+----------------+-------------------+------------------+
 		// (v) denotes Uvarint, (lv) denotes Length-prefixed Bytes (Uvarint length + bytes)
-		if pos <= len(data) {
-			regionID, n := binary.Uvarint(data[pos:])
+		if pos < len(data) {
+			regionID, n := uvarint(data[pos:])
 			pos += n
 			if pos > len(data) {
 				return Edit{}, fmt.Errorf("manifest region edit truncated after id")
@@ -426,9 +442,9 @@ func decodeEdit(data []byte) (Edit, error) {
 			pos += n
 			end, n := readBytes(data[pos:])
 			pos += n
-			version, n := binary.Uvarint(data[pos:])
+			version, n := uvarint(data[pos:])
 			pos += n
-			confVer, n := binary.Uvarint(data[pos:])
+			confVer, n := uvarint(data[pos:])
 			pos += n
 			if pos > len(data) {
 				return Edit{}, fmt.Errorf("manifest region edit truncated epoch")
@@ -440,17 +456,20 @@ func decodeEdit(data []byte) (Edit, error) {
 			}
 			peersCount := uint64(0)
 			if pos < len(data) {
-				peersCount, n = binary.Uvarint(data[pos:])
+				peersCount, n = uvarint(data[pos:])
 				pos += n
 			}
 			if pos > len(data) {
 				return Edit{}, fmt.Errorf("manifest region edit truncated peer count")
 			}
+			if peersCount > uint64(len(data)-pos)/2 {
+				return Edit{}, fmt.Errorf("manifest region edit peer count %d exceeds payload", peersCount)
+			}
 			peers := make([]PeerMeta, 0, peersCount)
 			for i := uint64(0); i < peersCount; i++ {
-				storeID, n := binary.Uvarint(data[pos:])
+				storeID, n := uvarint(data[pos:])
 				pos += n
-				peerID, n := binary.Uvarint(data[pos:])
+				peerID, n := uvarint(data[pos:])
 				pos += n
 				if pos > len(data) {
 					return Edit{}, fmt.Errorf("manifest region edit truncated peer meta")
@@ -472,6 +491,9 @@ func decodeEdit(data []byte) (Edit, error) {
 			}
 		}
 	}
+	if malformed {
+		return Edit{}, fmt.Errorf("manifest edit: malformed varint")
+	}
 	return edit, nil
 }
 
@@ -482,10 +504,9 @@ func appendBytes(dst []byte, b []byte) []byte {
 
 func readBytes(data []byte) ([]byte, int) {
 	length, n := binary.Uvarint(data)
-	pos := n
-	end := pos + int(length)
-	if n <= 0 || end > len(data) {
+	if n <= 0 || length > uint64(len(data)-n) {
 		return nil, len(data)
 	}
-	return data[pos:end], n + int(length)
+	end := n + int(length)
+	return data[n:end], end
 }
